@@ -14,7 +14,8 @@ var spellings = map[string][]string{
 	"L": {"q", "z", "_", "x", "Q"}, "E": {"e", "E"}, "N": {"n", "r", "t"}, "U": {"é", "日", "ñ"}, "D": {"7", "0", "3"},
 	"sp": {" "}, "tab": {"\t"}, "nl": {"\n"}, "cr": {"\r"},
 	"sq": {"'"}, "dq": {"\""}, "bt": {"`"}, "bs": {"\\"}, "usq": {"‘", "’", "«", "»"}, "udq": {"“", "”"},
-	"^": {"^", "{", "}", "\x01"},
+	// no token starts with these: punctuation outside the grammar, a byte that is not valid UTF-8, control characters
+	"^": {"^", "\xff", "}", "\x01", "{", "\x00"},
 }
 
 // KeywordSpellings are used for the letter class in the keyword variants (v >= 100): a whole word per letter,
